@@ -25,6 +25,20 @@ P3 = [(1.0, 0.0, 0.0), (0.0, 1.0, 0.0), (0.0, 0.0, 1.0), (-0.5, 0.25, 0.125), (2
 PTS = {1: P1, 2: P2, 3: P3}
 
 
+def _pts_wide(n):
+    """n = 4..6: three mixed dyadic points first (the search alphabet), then the unit vectors and their halves (preludes)."""
+    mixed = [tuple((-1.0) ** j * 2.0 ** -(1 + (j % 3)) for j in range(n)),
+             tuple(2.0 ** -7 * (1 + (j % 2)) * (-1.0) ** (j // 2) for j in range(n)),
+             tuple(0.75 if j % 2 == 0 else -0.5 for j in range(n))]
+    units = [tuple(1.0 if j == i else 0.0 for j in range(n)) for i in range(n)]
+    halves = [tuple(-0.5 if j == i else 0.0 for j in range(n)) for i in range(n)]
+    return mixed + units + halves
+
+
+for _n in (4, 5, 6):
+    PTS[_n] = _pts_wide(_n)
+
+
 def resid(x, m, base):
     """Smooth residuals of the absolute position (relative to the nominal base so that values stay O(1..1e3))."""
     z = x - base
@@ -116,7 +130,7 @@ def apply(st, op, params, check=True):
             if m.factorisation_current:
                 st["shift_viol"].append(("cache_invalidated", "factorisation_current still True after add_new_point"))
         elif kind == "shift":
-            sh = m.xopt().copy() if op[1] == "xopt" else np.array([0.5, -0.25, 0.125][:m.n()])
+            sh = m.xopt().copy() if op[1] == "xopt" else np.array([0.5, -0.25, 0.125, 0.25, -0.5, 0.0625][:m.n()])
             probes = _probe_points(st)
             before_vals = [m.model_value(z - m.xbase, d_based_at_xopt=False, with_const_term=True) for z in probes]
             g0, H0 = m.build_full_model()
@@ -247,7 +261,15 @@ def _searches(tier):
                       "prelude": [["replace", 1, 0], ["replace", 2, 1], ["replace", 3, 2], ["replace", 4, 5]]}, 3))
         runs.append(({"n": 1, "m": 1, "npt": 2, "base": 2.0 ** 10, "max_pts": 3}, 5))
         runs.append(({"n": 3, "m": 2, "npt": 4, "base": 0.0, "max_pts": 5, "npts_alpha": 4}, 4))
+        # the property's largest dimensions: a fitted full set in n = 6, m = 6 (interpolation, then regression by appending)
+        runs.append(({"n": 6, "m": 6, "npt": 7, "base": 2.0 ** 10, "max_pts": 9, "npts_alpha": 3,
+                      "prelude": [["replace", k, 2 + k] for k in range(1, 7)] + [["fit"]]}, 2))
     else:
+        runs.append(({"n": 6, "m": 6, "npt": 7, "base": 2.0 ** 10, "max_pts": 9, "npts_alpha": 3,
+                      "prelude": [["replace", k, 2 + k] for k in range(1, 7)] + [["fit"]]}, 3))
+        runs.append(({"n": 5, "m": 3, "npt": 6, "base": 0.0, "max_pts": 8, "npts_alpha": 3}, 3))          # growing from x0 alone
+        runs.append(({"n": 4, "m": 5, "npt": 9, "base": 2.0 ** 20, "max_pts": 9, "npts_alpha": 3,         # full regression set
+                      "prelude": [["replace", k, 2 + k] for k in range(1, 9)] + [["fit"]]}, 3))
         for base in (0.0, 1.0, 2.0 ** 10, 2.0 ** 20):
             runs.append(({"n": 2, "m": 2, "npt": 3, "base": base, "max_pts": 5}, 4))
             runs.append(({"n": 2, "m": 2, "npt": 3, "base": base, "max_pts": 5,
@@ -298,7 +320,7 @@ def run(report, tier, seed):
     cov["rule"] = ("breadth-first search over histories of {replace, append, shift base, re-fit} on the real Model; states "
                    "de-duplicated on the bytes of points, residuals, base point, fitted model and cache flag; in every state "
                    "the fit identities are evaluated on a copy with tolerance 1e3*eps*cond(W)*scale")
-    report.assumptions += ["n<=3, m<=3, point counts 2..2n+1, dyadic point alphabet over four decades, base points up to 2^20; "
+    report.assumptions += ["n<=3, m<=3 with the full alphabets, plus n=6/m=6 (quick) and n in {4,5,6}, m<=6 (thorough) on three-point alphabets; point counts 2..2n+1, dyadic point alphabet over four decades, base points up to 2^20; "
                            "states with cond(W) > 1e10 are counted but their identities are not asserted"]
     if total_states < 500:
         raise common.HarnessError("C16 search is vacuous: %d states" % total_states)
